@@ -62,8 +62,10 @@ ValidAT(c) == /\ Len(c) = 9 /\ c[1] = 85 /\ Digits(c, 2, 9)
 
 \* BE: the last two digits = 97 - (first eight mod 97)
 \* format as the regime documents it: ten digits starting with 0 followed by a non-zero digit
-ValidBE(c) == /\ Len(c) = 10 /\ AllDigits(c) /\ D(c, 1) = 0 /\ D(c, 2) # 0
-              /\ D(c, 9) * 10 + D(c, 10) = 97 - NumMod(c, 1, 8, 97, 0)
+\* the nine digit form (the leading 0 left out) is accepted as well and stands for the same number
+BEcheck(c) == D(c, 9) * 10 + D(c, 10) = 97 - NumMod(c, 1, 8, 97, 0)
+ValidBE10(c) == /\ Len(c) = 10 /\ AllDigits(c) /\ D(c, 1) = 0 /\ D(c, 2) # 0 /\ BEcheck(c)
+ValidBE(c) == IF Len(c) = 9 THEN AllDigits(c) /\ ValidBE10(<<48>> \o c) ELSE ValidBE10(c)
 
 \* BR (CNPJ): 14 digits, two check digits, weights 5,4,3,2,9,8,7,6,5,4,3,2 and 6,5,4,3,2,9,...; r = sum mod 11; digit = 0 if r < 2 else 11 - r
 BRd(r) == IF r < 2 THEN 0 ELSE 11 - r
